@@ -216,6 +216,16 @@ Theorem C08_redundant_declaration_reorders_namesakes_refuted :
 Proof. exact canon_redundant_declaration_reorders_namesakes. Qed.
 Print Assumptions C08_redundant_declaration_reorders_namesakes_refuted.
 
+(* (d') what the verifier decodes from the canonical bytes IS the prepared tree: the canonical writer followed by the reader
+   model (XmlTok.read_tree), for every tree and every algorithm; premise and exclusions: Prop_DSIG.v *)
+From V Require Import XmlTok P_XmlTok DsigReader P_DsigReader.
+Theorem C08_canonical_bytes_read_back_as_prepared_tree : forall a t b,
+  canon_model a t = Some b ->
+  exists p, canon_prep a t = Some p /\ b = c14n_write p /\
+            (c14n_wf_elem p = true -> read_tree b = Ok (normalise p) /\ reparse_model b = Some (normalise p)).
+Proof. exact canonical_bytes_reparse_to_prepared_tree. Qed.
+Print Assumptions C08_canonical_bytes_read_back_as_prepared_tree.
+
 (* (e) through the signature model Dsig.v with the canonicaliser oracle instantiated by canon_model.
    PARTIAL.  Attribute order: for the usual transform list (enveloped-signature, then an inclusive canonicalisation) two
    trees that differ by attribute order anywhere -- inside the Signature element too -- put the SAME bytes to the digest.
